@@ -340,6 +340,9 @@ def _verify_text(res, text, linemap, gen, out_dir, rlimit, timeout, extra_args):
     # functions that were extracted must have been verified
     for r in res.functions:
         nm = r["emitted_as"]
+        if r.get("assumed_contract"):
+            r["verified"] = False
+            continue
         hit = [k for k in res.verified_fns if k.split("::")[-1] == nm]
         r["verified"] = bool(hit) and all(res.verified_fns[k]["success"] for k in hit)
         if not hit:
